@@ -411,6 +411,39 @@ struct BoolInterp<F: BoolExt> {
     sat_u128: SatCountCache<Saturating<u128>, BH>,
     sat_f64: SatCountCache<oxidd::util::num::F64, BH>,
     sat_nat: SatCountCache<oxidd::util::num::Natural, BH>,
+    /// C12s: caches kept in a table across operations (`SATC` / `PICKUNIC <cacheid> ...`)
+    kept: KeptCaches,
+}
+
+/// C12s: `SatCountCache` objects addressed by a cache id, one table per number type; they live as long as
+/// the case (across GC, ORDER, VARS, DROP and other handles).  A cache with an odd id has `cache_all = true`.
+#[derive(Default)]
+struct KeptCaches {
+    u64: BTreeMap<usize, SatCountCache<Saturating<u64>, BH>>,
+    u128: BTreeMap<usize, SatCountCache<Saturating<u128>, BH>>,
+    f64: BTreeMap<usize, SatCountCache<oxidd::util::num::F64, BH>>,
+    nat: BTreeMap<usize, SatCountCache<oxidd::util::num::Natural, BH>>,
+}
+
+/// the content of `cache.map` (public field), sorted by key: ` | M <node id>[~]=<value> ...`
+/// (`~` = the most significant bit of the key, which the BCDD version sets for a complemented edge)
+fn fmt_cache_map<N: oxidd::util::SatCountNumber>(c: &SatCountCache<N, BH>, show: &dyn Fn(&N) -> String) -> String {
+    let msb = 1usize << (usize::BITS - 1);
+    let mut v: Vec<(usize, bool, String)> = c.map.iter().map(|(k, n)| (*k & !msb, *k & msb != 0, show(n))).collect();
+    v.sort();
+    let mut s = String::from(" | M");
+    for (id, tag, val) in v {
+        write!(s, " {}{}={}", id, if tag { "~" } else { "" }, val).unwrap();
+    }
+    s
+}
+
+fn kept_cache<N: oxidd::util::SatCountNumber>(t: &mut BTreeMap<usize, SatCountCache<N, BH>>, cid: usize) -> &mut SatCountCache<N, BH> {
+    t.entry(cid).or_insert_with(|| {
+        let mut c = SatCountCache::<N, BH>::default();
+        c.cache_all = cid % 2 == 1;
+        c
+    })
 }
 
 impl<F: BoolExt> BoolInterp<F>
@@ -679,6 +712,58 @@ where
                     _ => return Err("badtype".into()),
                 })
             }
+            "SATC" => {
+                // SATC <cacheid> a vars type: sat_count on the kept cache <cacheid> of the number type (no clone of
+                // the handle: the reference counts during the call are those of the next snapshot); prints the
+                // result and the cache's map after the call
+                let cid: usize = tok[1].parse().unwrap();
+                let vars: LevelNo = tok[3].parse().unwrap();
+                let f = self.core.slots.get(&parse_slot(tok[2])).ok_or("skip")?;
+                Ok(match tok[4] {
+                    "u64" => {
+                        let c = kept_cache(&mut self.kept.u64, cid);
+                        let r = f.sat_count(vars, c).0;
+                        format!("u64 {}{}", r, fmt_cache_map(c, &|n| n.0.to_string()))
+                    }
+                    "u128" => {
+                        let c = kept_cache(&mut self.kept.u128, cid);
+                        let r = f.sat_count(vars, c).0;
+                        format!("u128 {}{}", r, fmt_cache_map(c, &|n| n.0.to_string()))
+                    }
+                    "f64" => {
+                        let c = kept_cache(&mut self.kept.f64, cid);
+                        let r = f.sat_count(vars, c).0;
+                        format!("f64 {:016x}{}", r.to_bits(), fmt_cache_map(c, &|n| format!("{:016x}", n.0.to_bits())))
+                    }
+                    "nat" => {
+                        let c = kept_cache(&mut self.kept.nat, cid);
+                        let r = f.sat_count(vars, c);
+                        format!("nat {}{}", r, fmt_cache_map(c, &|n| n.to_string()))
+                    }
+                    _ => return Err("badtype".into()),
+                })
+            }
+            "PICKUNIC" => {
+                // PICKUNIC <cacheid> a seed count -> histogram of cubes; pick_cube_uniform on the kept F64 cache
+                // <cacheid> (the same object `SATC <cacheid> .. f64` uses); prints the cache's map after the draws
+                let cid: usize = tok[1].parse().unwrap();
+                let seed: u64 = tok[3].parse().unwrap();
+                let cnt: u32 = tok[4].parse().unwrap();
+                let f = self.core.slots.get(&parse_slot(tok[2])).ok_or("skip")?;
+                let mut rng = oxidd::util::Rng::new_seed(seed);
+                let c = kept_cache(&mut self.kept.f64, cid);
+                let mut hist: BTreeMap<String, u32> = BTreeMap::new();
+                for _ in 0..cnt {
+                    let cube = f.pick_cube_uniform(c, &mut rng);
+                    *hist.entry(fmt_cube(&cube)).or_insert(0) += 1;
+                }
+                let mut s = String::from("hist");
+                for (k, v) in hist {
+                    write!(s, " {k}={v}").unwrap();
+                }
+                s.push_str(&fmt_cache_map(c, &|n| format!("{:016x}", n.0.to_bits())));
+                Ok(s)
+            }
             "PICK" => {
                 // PICK a choicemask  -> cube + trace of choice calls (level:nodeid)
                 let cm: u64 = tok[2].parse().unwrap();
@@ -923,6 +1008,7 @@ where
         sat_u128: Default::default(),
         sat_f64: Default::default(),
         sat_nat: Default::default(),
+        kept: Default::default(),
     };
     // gcall=1: a collection (which clears the apply cache) before every operation, so that no
     // memoised result can be served: the cache-free reference run of C06
@@ -1002,6 +1088,7 @@ fn run_par_block<F: BoolExt>(
                         sat_u128: Default::default(),
                         sat_f64: Default::default(),
                         sat_nat: Default::default(),
+                        kept: Default::default(),
                     };
                     let mut res = Vec::new();
                     barrier.wait();
